@@ -143,6 +143,11 @@ func (t *Transport) Listen(addr net.Addr) (*SnowflakeListener, error) {
 	case <-time.After(listenAndServeErrorTimeout):
 		break
 	}
+	if err != nil {
+		// ListenAndServe failed at once ("address already in use",
+		// "permission denied"): this is the error the wait above is for.
+		return nil, err
+	}
 
 	listener.server = server
 
